@@ -56,13 +56,23 @@ func (f *Fn) Match(pat string, e ast.Expr, b Binds) bool {
 	if b == nil {
 		b = Binds{}
 	}
-	return f.matchNode(parsePat(pat), e, b)
+	return f.matchRoot(parsePat(pat), e, b)
+}
+
+// matchRoot: outside a search (Find, FindPat, ContainsPat walk every node, so a
+// variable's definition is visited anyway) a local variable in value position
+// stands for its definition; inside a search only the node itself is matched.
+func (f *Fn) matchRoot(p ast.Expr, e ast.Expr, b Binds) bool {
+	if f.searching > 0 {
+		return f.matchNode(p, e, b)
+	}
+	return f.match(p, e, b)
 }
 
 // MatchNew matches and returns fresh bindings (nil when there is no match).
 func (f *Fn) MatchNew(pat string, e ast.Expr) Binds {
 	b := Binds{}
-	if e != nil && f.matchNode(parsePat(pat), e, b) {
+	if e != nil && f.matchRoot(parsePat(pat), e, b) {
 		return b
 	}
 	return nil
@@ -311,26 +321,70 @@ func (f *Fn) MatchWith(pat string, e ast.Expr, checks ...HoleCheck) Binds {
 	return b
 }
 
-// GPat builds a guard from a pattern: the fact states that an expression
-// matching pat has truth value val. `x != y` with value v is the same fact as
-// `x == y` with value !v, and `!x` with v the same as x with !v; both spellings
-// are recognised. A boolean local that was assigned from a matching expression
-// is followed (through DefOf).
+// GPat builds a guard from a pattern: the guard states that an expression
+// matching pat has truth value val. The pattern is decomposed along &&, || and !
+// into a formula; each atomic sub-pattern is a leaf. `x != y` with value v is the
+// same fact as `x == y` with value !v; comparison complements (!(a < b) is
+// a >= b) and boolean locals assigned from a matching expression are recognised.
+// A sub-pattern that is just an unconstrained hole is dropped (always true).
 func (g *Graph) GPat(val bool, pat string, checks ...HoleCheck) Guard {
-	p := parsePat(pat)
-	want := val
-	// normalise the pattern
-	for {
-		p = ast.Unparen(p)
-		if u, ok := p.(*ast.UnaryExpr); ok && u.Op == token.NOT {
-			p, want = u.X, !want
-			continue
-		}
-		break
+	gd := g.gpatForm(parsePat(pat), checks)
+	if !val {
+		return GNot(gd)
 	}
+	return gd
+}
+
+func (g *Graph) gpatForm(p ast.Expr, checks []HoleCheck) Guard {
+	p = ast.Unparen(p)
+	switch x := p.(type) {
+	case *ast.UnaryExpr:
+		if x.Op == token.NOT {
+			return GNot(g.gpatForm(x.X, checks))
+		}
+	case *ast.BinaryExpr:
+		switch x.Op {
+		case token.LAND:
+			return GAnd(g.gpatForm(x.X, checks), g.gpatForm(x.Y, checks))
+		case token.LOR:
+			return GOr(g.gpatForm(x.X, checks), g.gpatForm(x.Y, checks))
+		}
+	case *ast.Ident:
+		if holeRe.MatchString(x.Name) {
+			constrained := false
+			for _, c := range checks {
+				if c.Hole == x.Name {
+					constrained = true
+				}
+			}
+			if !constrained {
+				return Guard{op: gTrue}
+			}
+		}
+	}
+	// the checks that concern holes of this sub-pattern
+	holes := map[string]bool{}
+	ast.Inspect(p, func(n ast.Node) bool {
+		if id, ok := n.(*ast.Ident); ok && holeRe.MatchString(id.Name) {
+			holes[id.Name] = true
+		}
+		return true
+	})
+	var mine []HoleCheck
+	for _, c := range checks {
+		if holes[c.Hole] {
+			mine = append(mine, c)
+		}
+	}
+	return GFunc(g.gpatLeaf(p, mine))
+}
+
+// gpatLeaf recognises facts stating that an expression matching p is true.
+func (g *Graph) gpatLeaf(p ast.Expr, checks []HoleCheck) func(Fact) bool {
+	want := true
 	if be, ok := p.(*ast.BinaryExpr); ok && be.Op == token.NEQ {
 		p = &ast.BinaryExpr{X: be.X, Op: token.EQL, Y: be.Y}
-		want = !want
+		want = false
 	}
 	return func(ft Fact) bool {
 		e, v := ast.Unparen(ft.E), ft.Val
@@ -377,7 +431,7 @@ var complementOp = map[token.Token]token.Token{token.LSS: token.GEQ, token.GEQ: 
 // `err == nil` where err was last assigned from the call (the
 // `if err := f(); err != nil` idiom).
 func (g *Graph) GErrNil(isNil bool, callPat string, checks ...HoleCheck) Guard {
-	return func(ft Fact) bool {
+	return GFunc(func(ft Fact) bool {
 		x, y, eq, ok := EqParts(ft)
 		if !ok || eq != isNil {
 			return false
@@ -396,19 +450,7 @@ func (g *Graph) GErrNil(isNil bool, callPat string, checks ...HoleCheck) Guard {
 			return false
 		}
 		return g.Fn.MatchWith(callPat, c, checks...) != nil
-	}
-}
-
-// GAnyOf is the disjunction of guards.
-func GAnyOf(gs ...Guard) Guard {
-	return func(ft Fact) bool {
-		for _, g := range gs {
-			if g(ft) {
-				return true
-			}
-		}
-		return false
-	}
+	})
 }
 
 // FindPat returns the sites of expressions matching the pattern.
@@ -431,6 +473,8 @@ func (g *Graph) FindPat(pat string, checks ...HoleCheck) []Site {
 func (f *Fn) ContainsPat(pat string, checks ...HoleCheck) func(ast.Node) bool {
 	return func(top ast.Node) bool {
 		found := false
+		f.searching++
+		defer func() { f.searching-- }()
 		InspectNoLit(top, func(n ast.Node) bool {
 			if e, ok := n.(ast.Expr); ok && f.MatchWith(pat, e, checks...) != nil {
 				found = true
